@@ -40,7 +40,14 @@ ASSUMPTIONS = [
     "scalars form a field (Section hypothesis field_theory); cos/sin values enter as named inputs with c*c+s*s=1",
     "Fock-truncation error of low-energy Gaussian states at the cutoffs used is below the cross-representation tolerance",
 ]
-MANIFEST_TEXT = "see coq/Properties/C16.v"
+MANIFEST_TEXT = (
+    "proof (partial). Full theorems (unbounded in mode count, mode lists, cutoff, tensors; scalars any field): "
+    "C16_gauss_subset_order, C16_gauss_unsorted_rejected, C16_gauss_displacement_order, C16_gauss_photon, C16_gauss_quad_photon, "
+    "C16_fock_prob_all_probs, C16_fock_trace, C16_gauss_parity_ignores_modes and C16_gauss_parity_refuted (the faithful model of "
+    "Gaussian parity_expectation ignores which modes are requested: known finding). Stated but not proved in Coq "
+    "(C16_fock_reduced_labels_statement, C16_fock_marginals_statement, C16_fock_parity_statement): validated each run by exact "
+    "integer-tensor correspondence and captured einsum subscripts. Wigner functions, thewalrus Fock conversions, bosonic "
+    "observables, fidelities: cross-method / cross-representation search only.")
 
 ALPHA = string.ascii_lowercase
 TOL = 1e-9
